@@ -66,6 +66,7 @@ def run_case(b, case):
     """case = (graph {name: (deps...)}, listing [names], set of names that have a .so)"""
     graph, listing, have = case[:3]
     nopost = case[3] if len(case) > 3 else frozenset()
+    noctor = case[4] if len(case) > 4 else frozenset()
     d = getattr(_tls, 'dir', None)
     if d is None:
         d = _tls.dir = tempfile.mkdtemp(prefix='c20-', dir=b)
@@ -73,13 +74,13 @@ def run_case(b, case):
         for nm in names(6):
             shutil.copy(os.path.join(b, 'stubs', 'stub.so'), os.path.join(d, 'mods', nm + '.so'))
     mods = os.path.join(d, 'mods')
-    if have is not None or nopost:
+    if have is not None or nopost or noctor:
         hv = sorted(have) if have is not None else names(6)
-        mods = os.path.join(d, 'mods-' + '-'.join(hv) + '-np-' + '-'.join(sorted(nopost)))
+        mods = os.path.join(d, 'mods-' + '-'.join(hv) + '-np-' + '-'.join(sorted(nopost)) + '-nc-' + '-'.join(sorted(noctor)))
         if not os.path.isdir(mods):
             os.makedirs(mods)
             for nm in hv:
-                shutil.copy(os.path.join(b, 'stubs', 'stub_nopost.so' if nm in nopost else 'stub.so'), os.path.join(mods, nm + '.so'))
+                shutil.copy(os.path.join(b, 'stubs', 'stub_noctor.so' if nm in noctor else ('stub_nopost.so' if nm in nopost else 'stub.so')), os.path.join(mods, nm + '.so'))
     log = os.path.join(d, 'log')
     with open(os.path.join(d, 'graph'), 'w') as f:
         for k in sorted(graph):
@@ -109,6 +110,7 @@ def _run1(case):
 def judge(case, rc, ev, out, err):
     graph, listing, have = case[:3]
     nopost = case[3] if len(case) > 3 else frozenset()
+    noctor = case[4] if len(case) > 4 else frozenset()
     allnodes = set(graph) | {y for v in graph.values() for y in v} | set(listing)
     R = reach(graph, listing)
     missing = {m for m in R if have is not None and m not in have}
@@ -140,6 +142,8 @@ def judge(case, rc, ev, out, err):
             n = cnt.get((what, m), 0)
             if what == 'post-init' and m in nopost:
                 continue      # this module has no post-init entry point
+            if what in ('ctor-begin', 'ctor-end') and m in noctor:
+                continue      # this module has no constructor
             if m in R and n != 1:
                 V.append(('C20.count', '%s of %s happened %d times (expected once)' % (what, m, n)))
             if m not in R and n:
@@ -235,6 +239,19 @@ def cases(quick):
         if not cyclic(g, set(nm4)):
             for sub in ((nm4[3],), (nm4[2],), tuple(nm4)):
                 cs.append((g, [nm4[0]], None, frozenset(sub)))
+    # modules without the optional constructor (leaves: they can declare nothing): every graph on <= 3 nodes x every non-empty set of its leaves x every listing
+    for n in (2, 3):
+        nm = names(n)
+        for g in all_graphs(n, False):
+            leaves = [m for m in nm if not g[m]]
+            for k in range(1, len(leaves) + 1):
+                for sub in itertools.combinations(leaves, k):
+                    if len(sub) == n:
+                        continue        # somebody has to end the event loop
+                    for l in listings(nm):
+                        if l[0] in sub:
+                            continue    # the first listed module is the one that ends the event loop: it needs a constructor
+                        cs.append((g, l, None, frozenset(), frozenset(sub)))
     # back-ends declared with module_antidepends(): one such edge alone, and next to one ordinary dependency, in every labelling and listing
     for n in (2, 3):
         nm = names(n)
@@ -261,7 +278,8 @@ def cases(quick):
 def gstr(case):
     g, l, have = case[:3]
     return 'graph {%s} listed (%s)%s' % ('; '.join('%s->%s' % (k, ','.join(v)) for k, v in sorted(g.items()) if v) or 'no edges', ', '.join(l),
-                                          ('' if have is None else ' with .so files only for %s' % sorted(have)) + ('' if len(case) < 4 or not case[3] else ' (no post-init entry point in %s)' % sorted(case[3])))
+                                          ('' if have is None else ' with .so files only for %s' % sorted(have)) + ('' if len(case) < 4 or not case[3] else ' (no post-init entry point in %s)' % sorted(case[3]))
+                                          + ('' if len(case) < 5 or not case[4] else ' (no constructor in %s)' % sorted(case[4])))
 
 
 def shape_class(case):
@@ -299,7 +317,7 @@ def main(tier):
             for cls, text in judge(case, rc, ev, out, err):
                 run.violation(cls + '/' + sc, '%s  [%s; exit %s; log: %s]' % (text, gstr(case), rc, ' '.join('%s:%s' % e for e in ev)[:300]),
                               {'engine': 'E3 stubs', 'graph': {k: list(v) for k, v in case[0].items()}, 'listing': case[1], 'have': sorted(case[2]) if case[2] is not None else None,
-                               'nopost': sorted(case[3]) if len(case) > 3 else []},
+                               'nopost': sorted(case[3]) if len(case) > 3 else [], 'noctor': sorted(case[4]) if len(case) > 4 else []},
                               dedup=cls + '/' + sc)
             if run.out_of_time(10):
                 run.cap('deadline after %d of %d configurations' % (done, len(cs)))
@@ -321,7 +339,7 @@ def main(tier):
 def replay(obj):
     r = obj['replay']
     b = build.build()
-    case = ({k: tuple(v) for k, v in r['graph'].items()}, r['listing'], set(r['have']) if r['have'] is not None else None, frozenset(r.get('nopost') or []))
+    case = ({k: tuple(v) for k, v in r['graph'].items()}, r['listing'], set(r['have']) if r['have'] is not None else None, frozenset(r.get('nopost') or []), frozenset(r.get('noctor') or []))
     rc, ev, out, err = run_case(b, case)
     print(gstr(case)); print('exit', rc); print('\n'.join('%s %s' % e for e in ev)); print(out[-600:]); print(err[-600:])
     V = judge(case, rc, ev, out, err)
